@@ -265,7 +265,8 @@ DT_MEMBERS = [(r'^size\|std::vector<nano::dtree_node_t', '{self}->n'),
 
 
 def dtree_fns():
-    k = dict(self_struct='struct nv_dtree', types=DT_TYPES, calls=DT_CALLS, members=DT_MEMBERS)
+    # size0_hook: `m_tables.size<0>()` (the repaired form of do_split's cluster construction) prints as .rows
+    k = dict(self_struct='struct nv_dtree', types=DT_TYPES, calls=DT_CALLS, members=DT_MEMBERS, hooks=[size0_hook(DTREE_CPP)])
     pk = dict(k, calls=DT_CALLS + [(r'^operator\(\)\|typename tbase::t(const|mutable)ref \(const nano::tensor_size_t\)( const)?\|nano::tensor_t<nano::tensor_carray_storage_t, long, 1>', '{0}.p[{1}]'),
                                    (r'^ctor\|nano::tensor_t<nano::tensor_vector_storage_t, long, 1>\|', 'nv_ixs_of({0})'),
                                    (r'^operator\+=\|.*\|Eigen::MatrixBase<Eigen::Map<Eigen::Matrix<double, -1, 1, 0>, 0>\s*>', 'nv_row_add_at({&0}, {1})')],
